@@ -5,6 +5,7 @@ CONSTANTS
   K = 2
   ATOMIC = TRUE
   FULL = FALSE
+  SPARSE = FALSE
   STORAGE = TRUE
 INVARIANT Inv
 CHECK_DEADLOCK FALSE
